@@ -101,6 +101,8 @@ inline uint64_t fnv(const void *p, size_t n, uint64_t h = 1469598103934665603ull
   return h;
 }
 inline uint64_t fnv(const std::string &s, uint64_t h = 1469598103934665603ull) { return fnv(s.data(), s.size(), h); }
+// (without this overload a (const char*, uint64_t) call would bind to (const void*, size_t n, h = default))
+inline uint64_t fnv(const char *s, uint64_t h) { return fnv(s, strlen(s), h); }
 inline uint64_t fnv_u64(uint64_t v, uint64_t h) { return fnv(&v, sizeof v, h); }
 
 // ---------------------------------------------------------------- per-case record
@@ -140,6 +142,8 @@ struct Harness {
   int per_size = 12;
   // run every case in a forked child (C20; also used for crash shrinking)
   bool always_isolate = false;
+  // evaluations the shrinker may spend (expensive cases: threads, subprocesses)
+  uint64_t shrink_budget = 20000;
   // optional per-process setup / teardown (scratch dir etc.)
   std::function<void()> setup;
   std::function<void()> teardown;
